@@ -29,30 +29,56 @@ def fires(out, prop, clause):
                 return True
     return False
 
+BLOCK_OPS = ("advance", "begin", "end")
+
 def shrink(ctx, meta, prop, clause, budget):
-    """ddmin over the op list; keeps the genesis (profile, hist)"""
+    """ddmin over the *transactions* of the op list; keeps the genesis (profile, hist) and every block (advance / begin /
+    end stay where they are), and rejects a candidate in which a height with scheduled work is jumped over — so that the
+    result is still a history a chain can have (an earlier version dropped blocks too, and some of its results fired
+    clauses on the unchanged tree as well: heights advanced past an expiry without the end-blocker)"""
     ops = list(meta["ops"])
     t0 = time.time()
     tmp = os.path.join(ctx.dir, "shrink-%d.json" % os.getpid())
+    def run_raw(path):
+        with tempfile.TemporaryDirectory(dir=ctx.dir) as td:
+            tr = os.path.join(td, "t.jsonl")
+            with open(tr, "w") as fout:
+                subprocess.run([ctx.drive, "-replay", path], stdout=fout, stderr=subprocess.DEVNULL, timeout=900)
+            if "skippedSchedule" in open(tr).read():
+                return None
+            with open(tr) as fin:
+                return subprocess.run([ctx.model], stdin=fin, stdout=subprocess.PIPE, stderr=subprocess.STDOUT, text=True).stdout
     def test(cand):
         json.dump(dict(meta, ops=cand), open(tmp, "w"))
         try:
-            return fires(run(ctx, tmp), prop, clause)
+            out = run_raw(tmp)
+            return out is not None and fires(out, prop, clause)
         except Exception:
             return False
+    # cut what follows the last step of interest first: trailing blocks may go as a whole
+    txs = [i for i, o in enumerate(ops) if o.get("k") not in BLOCK_OPS]
     n = 2
-    while len(ops) >= 2 and time.time() - t0 < budget:
-        chunk = max(1, len(ops) // n)
+    while len(txs) >= 1 and time.time() - t0 < budget:
+        chunk = max(1, len(txs) // n)
         reduced = False
-        for start in range(0, len(ops), chunk):
+        for start in range(0, len(txs), chunk):
             if time.time() - t0 >= budget: break
-            cand = ops[:start] + ops[start + chunk:]
+            drop = set(txs[start:start + chunk])
+            cand = [o for i, o in enumerate(ops) if i not in drop]
             if cand and test(cand):
-                ops = cand; n = max(n - 1, 2); reduced = True
+                ops = cand; txs = [i for i, o in enumerate(ops) if o.get("k") not in BLOCK_OPS]
+                n = max(n - 1, 2); reduced = True
                 break
         if not reduced:
             if chunk == 1: break
-            n = min(len(ops), n * 2)
+            n = min(len(txs), n * 2)
+    # trailing operations after the last hit are irrelevant: drop the longest suffix that keeps the hit
+    lo, hi = 1, len(ops)
+    while lo < hi and time.time() - t0 < budget:
+        mid = (lo + hi) // 2
+        if test(ops[:mid]): hi = mid
+        else: lo = mid + 1
+    if hi < len(ops) and test(ops[:hi]): ops = ops[:hi]
     if os.path.exists(tmp): os.remove(tmp)
     return ops
 
